@@ -19,14 +19,14 @@ CFG = {
         # T1: definitions regenerated from index/rtree/{geom,rtree}.go of the tree under test = the model's
         "C11_tie_size", "C11_tie_margin", "C11_tie_containsPoint", "C11_tie_containsRect", "C11_tie_intersect",
         "C11_tie_enlarge", "C11_tie_initBoundingBox", "C11_tie_boundingBox", "C11_tie_computeBoundingBox",
-        "C11_tie_assignGroup", "C11_tie_pickNext", "C11_tie_pickSeeds",
+        "C11_tie_assignGroup", "C11_tie_pickNext", "C11_tie_pickSeeds", "C11_tie_chooseNode",
         # … and the box theorems restated for the regenerated definitions
         "C11_intersects_iff_src", "C11_containsRect_src", "C11_enlarge_src", "C11_computeBoundingBox_src"]],
     "trusted_base": [
         "T1: harness/cmd/c11/extract.go (go/ast; translation table in its header) regenerates lean/GeomV/C11/Gen.lean from "
         "index/rtree/geom.go and rtree.go of the tree under test on every run; Ties/*.lean prove Gen.f = Model.f for size, margin, "
         "containsPoint, containsRect, intersect, enlarge, initBoundingBox, boundingBox, computeBoundingBox, assignGroup, pickNext, "
-        "pickSeeds; a function outside the translatable subset is missing from Gen.lean and its tie fails by name",
+        "pickSeeds and the loop of chooseNode (the box of the entry recursed into = the box at the model's index); a function outside the translatable subset is missing from Gen.lean and its tie fails by name",
         "control-skeleton tie: harness/cmd/c11/skeleton.go prints the conditions, loop kinds, calls, returns/breaks and the assignments "
         "to height/size/root/parent/level/leaf/entries of every structural function (and the fields of Rtree/node/entry) and the "
         "run compares it with harness/cmd/c11/skeleton.expected, the text the hand-written model was transcribed from",
@@ -37,7 +37,9 @@ CFG = {
         "`verif` hook: level, leaf flag, entry order, stored boxes, object identity, parent-link audit), Size, Depth, the Delete "
         "result and the answers to a query batch are compared exactly with the model",
         "IEEE-754 arithmetic in the heuristics (size differences) is exact on the generated grids (integers / half-integers below 2^53); "
-        "the theorems do not depend on the heuristics at all (arbitrary in-range choice functions)",
+        "the theorems do not depend on the heuristics at all (arbitrary in-range choice functions), and the transcription of the four heuristics "
+        "over an ARBITRARY interpretation of their float arithmetic is proved in range for every interpretation (C11_anyArith_inRange) and equal to the "
+        "tied exact model at Rat (C11_heurA_rat): rounding/overflow/NaN in the heuristics cannot break any clause",
         "Go `==` on interface values is modelled by DecidableEq on object identity (pointers, geom.Point values, *geom.Bounds); "
         "objects of uncomparable dynamic type (Go would panic in ==) are outside the model",
         "index/rtree/verif_hook.go (build tag verif, read-only) + harness/cmd/c11 + lean driver + lib/vcheck.py transport faithfully",
@@ -54,6 +56,9 @@ CFG = {
             "objects in every state} over pools with coincident boxes, degenerate boxes, clusters, lines, half-integer coordinates; "
             "a NON-DYADIC family (coordinates float64(k)/d, d in {10,7,3}, touching = bit-equal floats; judged by the Spec only, no structural "
             "diff, class *specOnly*); coordinate units 2^-10 .. 2^400; query batch: whole plane, point at a corner, touching corner/edge, one unit off, line, disjoint, an object's own box, random. "
+            "Phase 3: extreme coordinate units 2^-1000..2^900 incl. mixed magnitudes (areas overflow to +Inf / NaN differences / underflow to 0; judged by the Spec only), "
+            "fan-outs 66..130 (nodes with more than 64 and 128 entries), all three object kinds in one tree; the query batch of a step is asked first and rendered afterwards, "
+            "query box objects are reused across steps, returned slices are overwritten. "
             "One case = one history (every step judged); distinct = distinct history line; class = phase-kind-params-max height reached",
     "timeout": {"quick": 900, "thorough": 3000},
     "explanation": "SPEC verdicts are computed from Spec.lean on the implementation's own dump and answers (wfNode, Size, stored "
